@@ -45,6 +45,9 @@ def cases(shard, tier):
     elif shard['kind'] == 'min':
         for vrl in shard['vrls']:
             yield {'k': 'min', 'vrl': vrl}
+            # the record length reaches the writer through a ready-made label, or is set on the label afterwards
+            yield {'k': 'min', 'vrl': vrl, 'route': 'object'}
+            yield {'k': 'min', 'vrl': vrl, 'route': 'reconfigured'}
     else:
         vrl = shard['vrl']
         for width in range(1, 25):
@@ -60,7 +63,13 @@ def cases(shard, tier):
 def make_spec(case):
     k = case['k']
     if k == 'min':
-        return S.minimal_spec(vrl=case['vrl'], rows=2)
+        sp = S.minimal_spec(vrl=case['vrl'], rows=2)
+        if case.get('route') == 'object':
+            sp['object_route'] = True
+        elif case.get('route') == 'reconfigured':
+            sp['sul']['max_record_length'] = 8192 if case['vrl'] != 8192 else 64
+            sp['ops'].append({'op': 'sul', 'kw': {'max_record_length': case['vrl']}})
+        return sp
     if k == 'row':
         # decompose the row width into 1..3 channels of supported sizes (1, 2, 4, 8 bytes)
         w = case['width']
